@@ -62,16 +62,18 @@ CLAIMS = {
  "C10": ("C10_refuse / C10_accept: layouts differing in size or alignment are refused before any element is read or the converter "
          "called, the input dropped normally; equal layouts never refused.", "4 C10", V_NOTE, "Lean 4 theorem + correspondence over a type-pair matrix"),
  "C04": ("Translated primitives (regenerated from data.rs each run): C04_store_permission (stores and &mut through as_mut_ptr on &mut self, all "
-         "use the offset); byte-level machine theorems C04_store_load / C04_store_frame (a stored value is read back; a store leaves every "
-         "datum apart from it untouched). The full refinement (constructor/accessor/unpack programs = abstract record) is the goal; its "
-         "program-level half is carried by channel X: the Lean machine running the Lean generator's programs predicts every value of every "
-         "API operation of compiled generated modules in debug and release builds.", "4 C04", X_NOTE,
-         "Lean 4 theorems over translated primitives + abstract machine; correspondence with compiled generated code (3 builds)"),
- "C05": ("C05_convert: for consecutive variants with well-formed field lists and a record satisfying the record invariant, every one of the four generated conversion functions runs on the abstract machine without error, keeps every carried-over field, gives every written added field the supplied value, returns (or destroys exactly once) the removed values, and re-establishes the invariant; C05_chain: every record reachable by any chain of constructors / conversions / writes satisfies that invariant (induction over Reach). Hypotheses (ModuleWF) are evaluated by the driver on every sampled module; channel X compares compiled code with the machine on every form and random chains.", "4 C05", X_NOTE, "Lean 4 theorems (partial) + correspondence with compiled generated code"),
+         "use the offset); byte-level machine theorems C04_store_load / C04_store_frame; program-level theorems on the abstract machine running the "
+         "generator model's programs: C04_new_get (every getter after the generated constructor returns the stored value), C04_new_unpack, "
+         "C04_set_frame (a setter changes exactly one field); C04_premises_hold_for_builder_output: the well-formedness premises (ModuleWF) are proved "
+         "for the specs of every definition the builder can produce from valid requests (end-to-end through the layout theorems). Channel X: the Lean "
+         "machine running the Lean generator's programs predicts every value of every API operation of compiled generated modules in debug and "
+         "release builds.", "4 C04", X_NOTE,
+         "Lean 4 theorems over translated primitives + abstract machine refinement; correspondence with compiled generated code (3 builds)"),
+ "C05": ("C05_convert: for consecutive variants with well-formed field lists and a record satisfying the record invariant, every one of the four generated conversion functions runs on the abstract machine without error, keeps every carried-over field, gives every written added field the supplied value, returns (or destroys exactly once) the removed values, and re-establishes the invariant; C05_chain: every record reachable by any chain of constructors / conversions / writes satisfies that invariant (induction over Reach). Hypotheses (ModuleWF) are evaluated by the driver on every sampled module; channel X compares compiled code with the machine on every form and random chains.", "4 C05", X_NOTE, "Lean 4 refinement theorems (record invariant, induction over reachable records) + correspondence with compiled generated code"),
  "C06": ("C06_end_of_life (any reachable record: drop destroys exactly the droppable field values, unpack destroys nothing and returns them), C06_removed_dropped (non-returning conversions destroy exactly the removed droppable values), C06_new_then_drop / _unpack, C06_no_second_read_partial; with C05_convert this gives ledger balance along any life cycle. Channel X: drop multiset per call vs machine + independent birth/death ledger with leak detection on compiled code.", "4 C06", X_NOTE,
-         "Lean 4 theorems (partial) + correspondence with drop ledger on compiled generated code"),
+         "Lean 4 theorems (counting invariant over reachable records) + correspondence with drop ledger on compiled generated code"),
  "C07": ("C07_no_machine_error: on every record reachable by any sequence of constructor / conversion / write of a well-formed module with any capacity >= every field end, drop, unpack, every accessor and every conversion form run without oob / read-moved / store-over-owned / double-free; C07_store_tolerates_misalignment and C07_loads_are_typed decided on the translated primitives; C07_aligned_access, C07_in_bounds. Hook log of compiled code checked for bounds and alignment at real addresses.", "4 C07", X_NOTE,
-         "Lean 4 theorems over translated primitives + access-log validation on compiled generated code"),
+         "Lean 4 theorems (no machine error on reachable records; translated primitives) + access-log validation on compiled generated code"),
  "C11": ("Theorems over the generator model + modelled compiler rules, for every definition: C11_size, C11_align, C11_copy (any datum of any "
          "variant with wrong recorded size / alignment, or a may-be-uninit datum of a non-Copy type, makes `accepts` false), "
          "C11_accepts_when_right, C11_assertions_emitted. Tie: generator IR correspondence (channel L/G) + 144 rustc compile probes (each lab "
